@@ -257,7 +257,9 @@ class DerivedLevel(Level):
     def desugar_for_weights(self, replacements: dict):
         l = DerivedLevel(self.name,
                          Window(self.window.predicate,
-                                [replacements.get(f, [f, f])[0] for f in self.window.factors],
+                                # depend on the rewritten factor itself (its copies keep the level
+                                # names), not on the internal factor that collapses the copies
+                                [replacements.get(f, [f, f])[1] for f in self.window.factors],
                                 self.window.width,
                                 self.window.stride,
                                 self.window.start))
